@@ -10,7 +10,7 @@ rewriter of the code that exists now returns `none` (the caller keeps the source
 canonical tokens of the tree.  No piece is silently omitted.
 
 The code before the repair of `rewrite_bound_params` does not satisfy it (`…_counterexample`, one per
-caller); it does on trees whose binders hold lifetimes only (`…_partial`).
+caller); it does on trees whose binders hold lifetimes only (`…_partial`): the binders of stable Rust.
 -/
 namespace RF.Types
 open RF.Tok
@@ -18,40 +18,74 @@ open RF.Tok
 /-- The type rewriter (`impl Rewrite for ast::Ty`) never omits, adds, reorders or alters a token. -/
 theorem types_tokens_preserved (abi : Bool) (fits : Piece → Bool) (p : Piece) (t : Ty) :
     rwTy ⟨false, abi, fits⟩ p t = none ∨ rwTy ⟨false, abi, fits⟩ p t = some (canonTy abi t) :=
-  rwTy_ok ⟨false, abi, fits⟩ rfl t p
+  rwTy_ok ⟨false, abi, fits⟩ t p (Or.inl rfl)
 
 /-- `impl Rewrite for ast::GenericBounds` / `join_bounds`. -/
 theorem bounds_tokens_preserved (abi : Bool) (fits : Piece → Bool) (p : Piece) (bs : Bounds) :
     rwBoundsJoined ⟨false, abi, fits⟩ p bs = none
       ∨ rwBoundsJoined ⟨false, abi, fits⟩ p bs = some (sepBy plus (canonBounds abi bs)) :=
-  joinB_ok _ (rwBounds_ok ⟨false, abi, fits⟩ rfl bs _ 0) (rwBounds_ok ⟨false, abi, fits⟩ rfl bs _ 0)
+  joinB_ok _ (rwBounds_ok ⟨false, abi, fits⟩ bs _ 0 (Or.inl rfl)) (rwBounds_ok ⟨false, abi, fits⟩ bs _ 0 (Or.inl rfl))
 
 /-- `impl Rewrite for ast::GenericParam`, item by item (`rewrite_bound_params` joins them with `, `). -/
 theorem params_tokens_preserved (abi : Bool) (fits : Piece → Bool) (p : Piece) (i : Nat) (ps : Params) :
     rwParams ⟨false, abi, fits⟩ p i ps = none ∨ rwParams ⟨false, abi, fits⟩ p i ps = some (canonParams abi ps) :=
-  rwParams_ok ⟨false, abi, fits⟩ rfl ps p i
+  rwParams_ok ⟨false, abi, fits⟩ ps p i (Or.inl rfl)
 
-/-- `impl Rewrite for ast::WherePredicate`. -/
-theorem pred_tokens_preserved (abi : Bool) (fits : Piece → Bool) (p : Piece) (w : Pred) :
-    rwPred ⟨false, abi, fits⟩ p w = none ∨ rwPred ⟨false, abi, fits⟩ p w = some (canonPred abi w) := by
+/-- The induction step for where predicates, for the repaired code and, on trees whose binders hold
+lifetimes only, for the code before the repair. -/
+theorem rwPred_ok (e : Env) (p : Piece) (w : Pred) (h : e.pinned = false ∨ lbPred w = true) :
+    rwPred e p w = none ∨ rwPred e p w = some (canonPred e.abi w) := by
   cases w with
   | bound b t bs =>
-    have h0 := rwTy_ok ⟨false, abi, fits⟩ rfl t (p ++ [0])
-    have h1 := binderPre_ok [kw "for", tP '<'] (rwParams_ok ⟨false, abi, fits⟩ rfl b (p ++ [1]) 0)
-    have h2 := pick_ok (fits (p ++ [4]))
-      (joinB_ok (fits (p ++ [2] ++ [2])) (rwBounds_ok ⟨false, abi, fits⟩ rfl bs (p ++ [2] ++ [0]) 0)
-        (rwBounds_ok ⟨false, abi, fits⟩ rfl bs (p ++ [2] ++ [1]) 0))
-      (joinB_ok (fits (p ++ [3] ++ [2])) (rwBounds_ok ⟨false, abi, fits⟩ rfl bs (p ++ [3] ++ [0]) 0)
-        (rwBounds_ok ⟨false, abi, fits⟩ rfl bs (p ++ [3] ++ [1]) 0))
+    simp only [lbPred, Bool.and_eq_true] at h
+    have h0 := rwTy_ok e t (p ++ [0]) (by grind)
+    have hb : e.pinned = false ∨ lbBounds bs = true := by grind
+    have h1 := binderPre_ok' e.pinned [kw "for", tP '<'] (rwParams_ok e b (p ++ [1]) 0 (by grind))
+      (by rcases h with hh | hh
+          · exact Or.inl hh
+          · exact Or.inr (rwParams_lifetimes _ _ _ _ (by grind)))
+    have h2 := pick_ok (e.fits (p ++ [4]))
+      (joinB_ok (e.fits (p ++ [2] ++ [2])) (rwBounds_ok e bs (p ++ [2] ++ [0]) 0 hb)
+        (rwBounds_ok e bs (p ++ [2] ++ [1]) 0 hb))
+      (joinB_ok (e.fits (p ++ [3] ++ [2])) (rwBounds_ok e bs (p ++ [3] ++ [0]) 0 hb)
+        (rwBounds_ok e bs (p ++ [3] ++ [1]) 0 hb))
     simp only [Ok, rwPred, canonPred, rwBoundsJoined, binderToks] at *
     rcases h0 with h0 | h0 <;> rcases h1 with h1 | h1 <;> rcases h2 with h2 | h2 <;> simp [h0, h1] <;> grind
   | region lt bs => simp only [rwPred, canonPred, att]; grind
   | eq l r =>
-    have h0 := rwTy_ok ⟨false, abi, fits⟩ rfl l (p ++ [0])
-    have h1 := pick_ok (fits (p ++ [3])) (rwTy_ok ⟨false, abi, fits⟩ rfl r (p ++ [1]))
-      (rwTy_ok ⟨false, abi, fits⟩ rfl r (p ++ [2]))
+    simp only [lbPred, Bool.and_eq_true] at h
+    have h0 := rwTy_ok e l (p ++ [0]) (by grind)
+    have hr : e.pinned = false ∨ lbTy r = true := by grind
+    have h1 := pick_ok (e.fits (p ++ [3])) (rwTy_ok e r (p ++ [1]) hr) (rwTy_ok e r (p ++ [2]) hr)
     simp only [Ok, rwPred, canonPred] at *
     rcases h0 with h0 | h0 <;> rcases h1 with h1 | h1 <;> simp [h0, h1]
+
+/-- `impl Rewrite for ast::WherePredicate`. -/
+theorem pred_tokens_preserved (abi : Bool) (fits : Piece → Bool) (p : Piece) (w : Pred) :
+    rwPred ⟨false, abi, fits⟩ p w = none ∨ rwPred ⟨false, abi, fits⟩ p w = some (canonPred abi w) :=
+  rwPred_ok ⟨false, abi, fits⟩ p w (Or.inl rfl)
+
+/-! ### The code before the repair, on the trees of stable Rust
+
+Binders that hold lifetimes only (`lbTy`, `lbPred`: decidable on the tree) always rewrite, so the old
+`rewrite_bound_params` never returned its ambiguous `None` on them. -/
+
+theorem types_tokens_preserved_partial (abi : Bool) (fits : Piece → Bool) (p : Piece) (t : Ty)
+    (h : lbTy t = true) :
+    rwTy ⟨true, abi, fits⟩ p t = none ∨ rwTy ⟨true, abi, fits⟩ p t = some (canonTy abi t) :=
+  rwTy_ok ⟨true, abi, fits⟩ t p (Or.inr h)
+
+theorem pred_tokens_preserved_partial (abi : Bool) (fits : Piece → Bool) (p : Piece) (w : Pred)
+    (h : lbPred w = true) :
+    rwPred ⟨true, abi, fits⟩ p w = none ∨ rwPred ⟨true, abi, fits⟩ p w = some (canonPred abi w) :=
+  rwPred_ok ⟨true, abi, fits⟩ p w (Or.inr h)
+
+/-- Non-vacuity of the hypothesis: `for<'a, 'b: 'a> fn(&'a T)` and `for<'a> T: Tr` are such trees. -/
+example : lbTy (.bareFn (.lifetime "'a".toList [] (.lifetime "'b".toList ["'a".toList] .nil)) false .none
+    (.cons none (.ref (some "'a".toList) false (.path false (.plain "T".toList .nil))) .nil) false .none) = true := by
+  decide
+example : lbPred (.bound (.lifetime "'a".toList [] .nil) (.path false (.plain "T".toList .nil))
+    (.trait false .nil 0 false 0 false (.plain "Tr".toList .nil) .nil)) = true := by decide
 
 /-! ### The code before the repair: a binder that does not fit is dropped
 
